@@ -58,7 +58,7 @@ def keyArg (s : St) (j : Json) : Key :=
 
 def parseOp (s : St) (op : String) (args : List Json) : Option Op :=
   match op, args with
-  | "mk", [k, key, sem, cls, vt] => some (.mk ⟨kindOf k, (joptStr key).map Key.user, none, joptNat sem, jnat cls, jnat vt⟩)
+  | "mk", [k, key, sem, cls, vt] => some (.mk (kindOf k) (joptStr key) (joptNat sem) (jnat cls) (jnat vt))
   | "ns", [k, key, items, cfg] =>
     (nsKindOf k).map (fun kd => .construct kd (joptStr key) ((jarr items).map jnats) (cfgOf cfg))
   | "add", [n, j, e] => some (.add (jnat n) (jnat j) (jnat e))
